@@ -70,3 +70,121 @@ def quaternion_rates(env, cfg, ck):
     pw = np.array([0, w[0], w[1], w[2]])
     ck.eq('dot-world', ck.call(b.dot, q, w), 0.5 * A.hamilton(np, pw, q))
     ck.eq('dot-body', ck.call(b.dotb, q, w), 0.5 * A.hamilton(np, q, pw))
+
+
+@contract('C12', targets=[Q + 'vvmul', Q + 'q2v', Q + 'v2q'])
+def three_vector_form(env, cfg, ck):
+    """the minimal 3-vector form of unit quaternions multiplies consistently with the full product (scalar parts >= 0.1)"""
+    b, np = env.base, env.np
+    p, q = env.unitvec('p', 4), env.unitvec('q', 4)
+    env.assume(p[0] >= 0.1)
+    env.assume(q[0] >= 0.1)
+    pv, qv = ck.call(b.q2v, p), ck.call(b.q2v, q)
+    ck.eq('q2v', pv, np.array(p[1:]))
+    ck.eq('v2q-q2v', ck.call(b.v2q, pv), np.array(p))
+    full = A.hamilton(np, p, q)
+    ck.eq('vvmul', ck.call(b.vvmul, pv, qv), full[1:])
+    # negative scalar part: q2v of -p is the vector part of p
+    ck.eq('q2v-sign', ck.call(b.q2v, [-x for x in p]), np.array(p[1:]))
+
+
+@contract('C12', targets=['spatialmath.quaternion.Quaternion.__mul__', 'spatialmath.quaternion.Quaternion.__add__', 'spatialmath.quaternion.Quaternion.__sub__',
+                          'spatialmath.quaternion.Quaternion.__pow__', 'spatialmath.quaternion.Quaternion.conj', 'spatialmath.quaternion.Quaternion.norm',
+                          'spatialmath.quaternion.Quaternion.inner', 'spatialmath.quaternion.Quaternion.unit', 'spatialmath.quaternion.Quaternion.matrix',
+                          'spatialmath.quaternion.UnitQuaternion.__mul__', 'spatialmath.quaternion.UnitQuaternion.inv',
+                          'spatialmath.quaternion.UnitQuaternion.__truediv__'])
+def class_operators(env, cfg, ck):
+    """the class operators + - * ** conj norm inner matrix agree with the Hamilton specification"""
+    np, sm = env.np, env.sm
+    p, q = env.reals('p', 4), env.reals('q', 4)
+    P, Q_ = sm.Quaternion(np.array(p)), sm.Quaternion(np.array(q))
+    ck.eq('mul', ck.call(lambda: P * Q_).A, A.hamilton(np, p, q))
+    ck.eq('add', ck.call(lambda: P + Q_).A, np.array(p) + np.array(q))
+    ck.eq('sub', ck.call(lambda: P - Q_).A, np.array(p) - np.array(q))
+    ck.eq('conj', ck.call(P.conj).A, A.qconj(np, p))
+    n = ck.call(P.norm)
+    ck.eq('norm', n * n, A.normsq(np, p))
+    ck.eq('inner', ck.call(P.inner, Q_), A.dot(np, p, q))
+    ck.eq('matrix', ck.call(lambda: P.matrix) @ np.array(q), A.hamilton(np, p, q))
+    ck.eq('pow3', ck.call(lambda: P ** 3).A, A.hamilton(np, A.hamilton(np, p, p), p))
+    ck.eq('pow-2', ck.call(lambda: P ** -2).A, A.qconj(np, A.hamilton(np, p, p)))
+    k = env.real('k')
+    ck.eq('scalar-right', ck.call(lambda: P * k).A, k * np.array(p))
+    ck.eq('scalar-left', ck.call(lambda: k * P).A, k * np.array(p))
+    u, v = env.unitvec('u', 4), env.unitvec('v', 4)
+    U, V_ = sm.UnitQuaternion(np.array(u)), sm.UnitQuaternion(np.array(v))
+    ck.eq('unit-mul', ck.call(lambda: U * V_).A, A.hamilton(np, u, v))
+    ck.is_instance('unit-mul:class', U * V_, sm.UnitQuaternion)
+    ck.eq('unit-inv', ck.call(U.inv).A, A.qconj(np, u))
+    ck.eq('unit-div', ck.call(lambda: U / V_).A, A.hamilton(np, u, A.qconj(np, v)))
+    ck.eq('unit-inv-law', ck.call(lambda: U * U.inv()).A, np.array([1, 0, 0, 0]))
+    ck.eq('mixed-mul', ck.call(lambda: U * P).A, A.hamilton(np, u, p))
+    ck.is_instance('mixed-mul:class', U * P, sm.Quaternion)
+
+
+@contract('C12', targets=['spatialmath.quaternion.Quaternion.exp', 'spatialmath.quaternion.Quaternion.log'], configs=product(sign=['s>=0', 's<0']))
+def quaternion_exp_log(env, cfg, ck):
+    """exp(log(q)) = q for every q with non-zero vector part; log(exp(q)) = q when the vector part has norm in (0, pi)"""
+    np, sm = env.np, env.sm
+    # q = r (cos a, sin a * n): r in [1e-3, 1e3], a in (0, pi) with sin a >= 1e-3, n a unit vector
+    r = env.real('r', 1e-3, 1e3, 'logmag')
+    n = env.unitvec('n', 3)
+    a = env.real('a', 1e-3, 3.14)
+    ca, sa = env.math.cos(a), env.math.sin(a)
+    env.assume(sa >= 1e-3)
+    if cfg['sign'] == 's>=0':
+        env.assume(ca >= 0)
+    else:
+        env.assume(ca <= -1e-3)
+    q = [r * ca] + [r * sa * x for x in n]
+    Qq = sm.Quaternion(np.array(q))
+    L = ck.call(Qq.log)
+    ck.eq('log:scalar', env.math.exp(L.s), r, tol=1e-6, scale=r)
+    ck.eq('log:vector', L.v, a * np.array(n), tol=1e-6)
+    E = ck.call(L.exp)
+    ck.eq('exp-log', E.A, np.array(q), tol=1e-6, scale=r)
+    # log(exp(x)) = x for x = (s, a n) with a in (0, pi)
+    s = env.real('s', -3.0, 3.0)
+    X = sm.Quaternion(np.array([s] + [a * x for x in n]))
+    ck.eq('log-exp', ck.call(lambda: X.exp().log()).A, X.A, tol=1e-6)
+
+
+D = 'spatialmath.DualQuaternion.'
+
+
+@contract('C12', targets=[D + 'DualQuaternion.__mul__', D + 'DualQuaternion.__add__', D + 'DualQuaternion.__sub__', D + 'DualQuaternion.conj',
+                          D + 'DualQuaternion.matrix', D + 'DualQuaternion.vec', D + 'DualQuaternion.norm'])
+def dual_quaternion_algebra(env, cfg, ck):
+    """dual-number extension: (a + eb)(c + ed) = ac + e(ad + bc); associative; 8x8 matrix form reproduces the product"""
+    np, sm = env.np, env.sm
+    def dq(tag):
+        a, b = env.reals(tag + 'r', 4), env.reals(tag + 'd', 4)
+        return sm.DualQuaternion(sm.Quaternion(np.array(a)), sm.Quaternion(np.array(b))), a, b
+    X, xa, xb = dq('x')
+    Y, ya, yb = dq('y')
+    Z, za, zb = dq('z')
+    H = lambda p, q: A.hamilton(np, p, q)
+    XY = ck.call(lambda: X * Y)
+    ck.eq('product:real', XY.real.A, H(xa, ya))
+    ck.eq('product:dual', XY.dual.A, H(xa, yb) + H(xb, ya))
+    ck.eq('associative', ck.call(lambda: (X * Y) * Z).vec, ck.call(lambda: X * (Y * Z)).vec)
+    ck.eq('matrix-form', ck.call(X.matrix) @ Y.vec, XY.vec)
+    ck.eq('add', ck.call(lambda: X + Y).vec, X.vec + Y.vec)
+    ck.eq('sub', ck.call(lambda: X - Y).vec, X.vec - Y.vec)
+    C = ck.call(X.conj)
+    ck.eq('conj', C.vec, np.r_[A.qconj(np, xa), A.qconj(np, xb)])
+    ck.eq('vec', X.vec, np.array(xa + xb))
+
+
+@contract('C12', targets=[D + 'DualQuaternion.norm', D + 'UnitDualQuaternion.__init__'])
+def unit_dual_quaternion_norm(env, cfg, ck):
+    """the norm of a unit dual quaternion built from a rigid motion is defined and equals (1, 0)"""
+    np, sm = env.np, env.sm
+    q = env.unitvec('q', 4)
+    env.assume(q[0] >= 0.1)
+    t = env.reals('t', 3)
+    T = sm.SE3(A.homog(np, A.quat_to_R(np, q), t), check=False)
+    d = ck.call(sm.UnitDualQuaternion, T)
+    n = ck.call(d.norm)
+    ck.eq('norm:real', n[0], 1, tol=1e-6)
+    ck.eq('norm:dual', n[1], 0, tol=1e-6, scale=1 + A.normsq(np, t))
